@@ -77,6 +77,10 @@ StepOK(A, B, rec) ==
     THEN /\ B.now >= A.now
          /\ \A i \in 1..Len(A.queue) : A.queue[i].pid[1] = "STOP" \/ A.queue[i].t >= B.now
          /\ MatchS([A EXCEPT !.now = B.now], B)
+    ELSE IF rec.lab.kind = "STOPR"
+    THEN (* first event after start(k) / resume(u) returned: the only thing that *)
+         (* happened in between is the caller-side collate of pending entries    *)
+         MatchS(Collate(A), B) \/ MatchS(A, B)
     ELSE IF rec.lab.kind = "END"
     THEN A.queue # <<>> /\ NoStop(A.queue)[1].pid[1] = "CRASH"
          /\ \E i \in 1..Len(A.queue) : A.queue[i].pid[1] = "CRASH"
@@ -90,7 +94,7 @@ Diff(A, B, rec) ==
           ELSE LET x == CHOOSE x \in CallOutcomes(A, rec.call) : TRUE
                IN {f \in DOMAIN Norm(B) : Norm(x.st)[f] # Norm(B)[f]} \cup (IF x.raised # rec.callexc THEN {"raised"} ELSE {}))
     ELSE IF rec.lab.kind = "STOP" THEN {f \in DOMAIN Norm(B) : Norm([A EXCEPT !.now = B.now])[f] # Norm(B)[f]}
-    ELSE IF rec.lab.kind \in {"END"} \/ CandT(A, rec) = {} THEN {"no-candidate"}
+    ELSE IF rec.lab.kind \in {"END", "STOPR"} \/ CandT(A, rec) = {} THEN {"no-candidate"}
     ELSE LET i == CHOOSE i \in CandT(A, rec) : TRUE
              Ts == SuccsT(A, i, rec)
          IN IF Ts = {} THEN {"no-successor"}
@@ -141,7 +145,7 @@ TInit == /\ tid \in 1..NT
          /\ bos = absS
 
 Exact(A, rec) ==
-    rec.lab.kind \in {"STOP", "END", "CALL"}
+    rec.lab.kind \in {"STOP", "STOPR", "END", "CALL"}
     \/ (NoStop(A.queue) # <<>> /\ NoStop(A.queue)[1].pid = LabPid(rec))
 
 TNext == /\ l < Len(Steps(tid))
